@@ -389,6 +389,59 @@ fn check_gate_collision(name_ix: usize, np: usize, nq: usize, obs: &mut Obs) {
     obs.done(true);
 }
 
+/// A user's include file whose name merely ends in (or contains) `stdgates.inc` is an ordinary file: its
+/// gates are recorded with their arities, the library is not provided in its place, and the declarations
+/// of a file included after it are recorded as well.  `UF|<name index>|<n params>|<n qubits>`
+const LIBRARY_LOOKALIKE_FILES: &[&str] = &["my_stdgates.inc", "xstdgates.inc", "sub/stdgates.inc", "stdgates.inc.qasm", "STDGATES.INC", "stdgates_inc"];
+
+fn check_user_file_named_like_library(k: usize, np: usize, nq: usize, obs: &mut Obs) {
+    use oq3_semantics::syntax_to_semantics::parse_source_string_with_path_search;
+    let fname = LIBRARY_LOOKALIKE_FILES[k % LIBRARY_LOOKALIKE_FILES.len()];
+    let dir = scratch_dir("c09");
+    if let Some(parent) = std::path::Path::new(fname).parent() {
+        let _ = std::fs::create_dir_all(dir.join(parent));
+    }
+    let ps: Vec<String> = (0..np).map(|i| format!("p{i}")).collect();
+    let qs: Vec<String> = (0..nq).map(|i| format!("q{i}")).collect();
+    let plist = if np == 0 { String::new() } else { format!("({})", ps.join(", ")) };
+    let _ = std::fs::write(dir.join(fname), format!("gate from_file{plist} {} {{ }}\n", qs.join(", ")));
+    let _ = std::fs::write(dir.join("second.inc"), "const int from_second = 16;\n");
+    let src = format!("include \"{fname}\";\ninclude \"second.inc\";\nint[from_second] sym_under_test;\ngate after_them a {{ }}\n");
+    obs.fp.str(&src);
+    obs.fp.u64((np * 8 + nq) as u64);
+    let d2 = dir.clone();
+    let s2 = src.clone();
+    let r = guard(move || {
+        let res = parse_source_string_with_path_search(&s2, Some("main.qasm"), Some(&[d2]));
+        let t = res.symbol_table();
+        let mut listed: Vec<(String, usize, usize)> = t.gates().map(|(n, _, a, b)| (n.to_string(), a, b)).collect();
+        listed.sort();
+        let mut kinds: Vec<String> = res.semantic_errors().iter().map(diag_kind).collect();
+        for inc in res.semantic_errors().include_errors() {
+            kinds.extend(inc.iter().map(diag_kind));
+        }
+        (listed, find_symbol(t, "sym_under_test").cloned(), kinds, res.any_syntax_errors())
+    });
+    let _ = std::fs::remove_dir_all(&dir);
+    let cell = |clause: &str| format!("include-named-like-library/{fname}/{clause}");
+    match r {
+        Err(p) => obs.inconclusive(format!("analysis panicked (C03): {}", p.site())),
+        Ok((_, _, _, true)) => obs.inconclusive("rejected by the parser"),
+        Ok((listed, ty, kinds, _)) => {
+            let mut want = vec![("after_them".to_string(), 0usize, 1usize), ("from_file".to_string(), np, nq)];
+            want.sort();
+            if listed != want {
+                obs.violate(cell("gates-listing"), format!("{src:?} (the file defines `gate from_file{plist} {}`): gates() = {listed:?}, diagnostics {kinds:?}", qs.join(", ")));
+            }
+            if ty != Some(Type::Int(Some(16), IsConst::False)) {
+                obs.violate(cell("declaration-after-the-includes"), format!("{src:?}: sym_under_test recorded as {ty:?}, diagnostics {kinds:?}"));
+            }
+            obs.class("gate-signature");
+            obs.done(true);
+        }
+    }
+}
+
 /// The recorded arity is the number of parameters written, also when a name is written twice (which
 /// is diagnosed as a redeclaration).  `GD|<n params>|<n qubits>|<dup: p|q|d>`
 fn check_dup_params(np: usize, nq: usize, dup: &str, obs: &mut Obs) {
@@ -663,6 +716,9 @@ impl Property for C09 {
             // once with the library's arity, once with another one
             if i / n == 0 { format!("GC|{}|{a}|{b}", i % n) } else { format!("GC|{}|{}|{}", i % n, (a + 1) % 4, b % 3 + 1) }
         }));
+        v.push(Stream::new("include-files-named-like-the-library", LIBRARY_LOOKALIKE_FILES.len() as u64 * 4, true, |i| {
+            format!("UF|{}|{}|{}", i % LIBRARY_LOOKALIKE_FILES.len() as u64, (i / 6) % 2 * 2, 1 + i / 12)
+        }));
         v.push(Stream::new("repeated-parameter-names", 3 * 4 * 3, true, |i| format!("GD|{}|{}|{}", 2 + i % 3, 1 + (i / 3) % 4, ["p", "q", "d"][(i / 12) as usize])));
         v.push(Stream::new("designator-identifier-shadowed-two-scopes-up", 4 * 5 * 3, true, |i| {
             let base = ["int", "uint", "float", "bit"][(i % 4) as usize];
@@ -684,6 +740,9 @@ impl Property for C09 {
             check_dup_params(p[0].parse().unwrap_or(2), p[1].parse().unwrap_or(1), p[2], obs);
         } else if let Some(rest) = input.strip_prefix("NS|") {
             check_nested_designator(rest, obs);
+        } else if let Some(rest) = input.strip_prefix("UF|") {
+            let p: Vec<usize> = rest.split('|').filter_map(|x| x.parse().ok()).collect();
+            check_user_file_named_like_library(p[0], p[1], p[2], obs);
         } else if let Some(rest) = input.strip_prefix("GC|") {
             let p: Vec<usize> = rest.split('|').filter_map(|x| x.parse().ok()).collect();
             check_gate_collision(p[0], p[1], p[2], obs);
